@@ -50,12 +50,19 @@ def check(out, ctx):
         for i in range(n):
             gg = gen.make(ctx.seed * 3 + 16, i, gen.Opts(p_ctx=0.0, p_hooks=0.4))
             gs.append((i, gg, gg.text()))
+        # texts whose bytes matter: CRLF line ends, raw CR / LF / TAB inside literals, trailing blanks, no final newline
+        directed = ["@export @no_skip_ws Line = 'a\r\nb' $;\r\n", "@export @no_skip_ws Line = \"a\r\nb\" 'c\rd' 'e\nf' 'g\th' $;\n",
+                    "@export R = 'x' 'y';   \n\n\n", "@export R = 'x' 'y';", "# c\r\n@export R = 'x' # d\r\n 'y';\r\n"]
+        for j, (i, gg, text) in enumerate(list(gs)[:4]):
+            directed.append(text.replace("\n", "\r\n"))
+        for j, text in enumerate(directed):
+            gs.append(("d%d" % j, None, text))
         import glob
         for p in sorted(glob.glob(os.path.join(vp.REPO, "test/src/*/grammar.ebnf")))[: (6 if ctx.tier == "quick" else 40)]:
             gs.append((os.path.basename(os.path.dirname(p)), None, open(p, encoding="utf-8").read()))
         for (i, gg, text) in gs:
             gp = os.path.join(tmp, "g%s.ebnf" % i)
-            open(gp, "w", encoding="utf-8").write(text)
+            open(gp, "w", encoding="utf-8", newline="").write(text)
             outs = []
             for k in range(5):
                 env = dict(os.environ)
